@@ -615,6 +615,52 @@ def rule_R16push(text, applied):
     return t
 
 
+def rule_R22(text, applied):
+    """an `impl IntoIterator<Item = T>` parameter that is only peeked and searched -> the materialised sequence:
+      `X: impl IntoIterator<Item = T>`            -> `X: Vec<T>`
+      `let mut X = X.into_iter().peekable();`     -> (dropped; X is the sequence itself)
+      `X.peek().copied()`                         -> `vfirst_copied(&X)`    (peek does not consume)
+      `X.find(|&c| P)`                            -> a first-match loop `{ let mut fi_ = 0; let mut found_ = None;
+                                                     while fi_ < X.len() { let c = X[fi_]; if P { found_ = Some(c);
+                                                     break; } fi_ += 1; } found_ }` (std definition of Iterator::find
+                                                     on the not yet consumed sequence)
+    Any other use of X makes the result fail to type-check (=> undecided)."""
+    m_text = mask(text)
+    m = re.search(r"\b(\w+)\s*:\s*impl\s+IntoIterator\s*<\s*Item\s*=\s*(\w+)\s*>", m_text)
+    if not m:
+        raise ExtractError("R22: no `impl IntoIterator<Item = T>` parameter (lost anchor)")
+    x, ty = m.group(1), m.group(2)
+    text = text[:m.start()] + f"{x}: Vec<{ty}>" + text[m.end():]
+    text, n1 = _sub_masked(text, r"\blet\s+mut\s+" + x + r"\s*=\s*" + x + r"\s*\.\s*into_iter\(\)\s*\.\s*peekable\(\)\s*;", lambda mm, s_: "")
+    text, n2 = _sub_masked(text, r"\b" + x + r"\s*\.\s*peek\(\)\s*\.\s*copied\(\)", lambda mm, s_: f"vfirst_copied(&{x})")
+    n3 = 0
+    while True:
+        m_text = mask(text)
+        fm = re.search(r"\b" + x + r"\s*\.\s*find\s*\(\s*\|\s*&\s*(\w+)\s*\|", m_text)
+        if not fm:
+            break
+        op = m_text.index("(", fm.start())
+        cp = match_close(m_text, op)
+        body = text[fm.end():cp].strip().rstrip(",").strip()
+        c = fm.group(1)
+        new = (f"{{ let mut fi_: usize = 0; let mut found_: Option<{ty}> = None; while fi_ < {x}.len() {{ let {c} = {x}[fi_]; "
+               f"if {body} {{ found_ = Some({c}); break; }} fi_ += 1; }} found_ }}")
+        text = text[:fm.start()] + _keep_newlines(text[fm.start():cp + 1], new) + text[cp + 1:]
+        n3 += 1
+    applied.append(f"R22({x}: peekable x{n1}, peek x{n2}, find x{n3})")
+    return text
+
+
+def rule_R22flat(text, applied):
+    """`X.iter().flatten().copied()` passed as a sequence argument -> `vflatten_copied(&X)` (the concatenation of
+    the inner vectors, by value)."""
+    t, n = _sub_masked(text, r"((?:\w+\s*\.\s*)*\w+)\s*\.\s*iter\(\)\s*\.\s*flatten\(\)\s*\.\s*copied\(\)",
+                       lambda m, s_: f"vflatten_copied(&{''.join(m.group(1).split())})")
+    if n:
+        applied.append(f"R22flatx{n}")
+    return t
+
+
 def rule_R6(text, applied):
     """receiver `mut self` -> `self` plus `let mut self_ = self;` as first statement; `self` -> `self_` in the body."""
     m_text = mask(text)
@@ -1267,7 +1313,7 @@ def rule_const(text, applied):
 
 
 RULES = {
-    "R16push": rule_R16push,
+    "R16push": rule_R16push, "R22": rule_R22, "R22flat": rule_R22flat,
     "R20": rule_R20, "R21": rule_R21, "R7stackrev": rule_R7stackrev,
     "R1": rule_R1, "R2": rule_R2, "R2ref": rule_R2ref, "R3": rule_R3, "R4": rule_R4, "R5": rule_R5,
     "R8max": rule_R8max, "R8cmpmax": rule_R8cmpmax, "R8resize_none": rule_R8resize_none, "R9": rule_R9, "R8position": rule_R8position, "R8rotate": rule_R8rotate, "R12refcell": rule_R12refcell,
